@@ -481,7 +481,8 @@ func stringContainsCTLByte(s []byte) bool {
 func splitHostURI(host, uri []byte) ([]byte, []byte, []byte) {
 	scheme, path := getScheme(uri)
 
-	if scheme == nil {
+	if scheme == nil || !bytes.HasPrefix(path, bytestr.StrSlashSlash) {
+		// no scheme, or "scheme:rest" without an authority: nothing to split off
 		return bytestr.StrHTTP, host, uri
 	}
 
